@@ -18,10 +18,13 @@ for mid, prop, path, old, new in M:
     if sel and not any(s in mid for s in sel):
         continue
     src = open(os.path.join(SCR, path)).read()
-    if src.count(old) < 1:
+    pairs = list(zip(old, new)) if isinstance(old, list) else [(old, new)]   # several sites of one file
+    if any(src.count(o) < 1 for o, _ in pairs):
         results[mid] = {'property': prop, 'status': 'does_not_apply'}
         print(mid, 'DOES NOT APPLY'); continue
-    open(os.path.join(SCR, path), 'w').write(src.replace(old, new, 1))
+    for o, n in pairs:
+        src = src.replace(o, n, 1)
+    open(os.path.join(SCR, path), 'w').write(src)
     t0 = time.time()
     p = subprocess.run(['/verif/check', prop, 'quick'], env=env, stdout=subprocess.PIPE, stderr=subprocess.STDOUT, timeout=3000)
     out = p.stdout.decode(errors='replace')
